@@ -136,6 +136,10 @@ def run(ctx):
     for (c, sec, key, v) in invalid:
         for k in (carriers if not ctx.quick else ["yaml-hyphen"] + rng.sample(carriers[1:], 3)):
             idx[("invalid", c, key, json.dumps(v), k)] = P.add(("invalid", c, key, v, k), proj, c, merged(BASE, {sec: {key: v}}), k)
+    # the same invalid values given as command-line threshold options
+    for (c, opt, v) in (("nesting", "--max-depth", 0), ("srp", "--max-methods", 0), ("srp", "--max-loc", 0), ("dry", "--min-lines", 0), ("pipeline", "--min-continues", 0),
+                        ("nesting", "--max-depth", -1), ("srp", "--max-methods", -3)):
+        idx[("invalid-cli", c, opt, v)] = P.add(("invalid-cli", c, opt, v), proj, c, BASE, "yaml-hyphen", post=[opt, str(v)])
     broken = {"yaml": (".thailint.yaml", "nesting:\n  max_nesting_depth: [3\n"), "json": (".thailint.json", '{"nesting": {"max_nesting_depth": 3,'),
               "pyproject": ("pyproject.toml", "[tool.thailint.nesting\nmax_nesting_depth = 3\n"),
               "yaml-tab": (".thailint.yaml", "nesting:\n\t- max_nesting_depth: 3\n\t  x: : y\n"),
@@ -334,6 +338,14 @@ def run(ctx):
         if must and r["exit"] != 2:
             kind = "group-opt" if k.startswith("group") else "opt" if k.startswith("opt") else k.split("-")[0]
             ctx.discrepancy("invalid-value-accepted:%s.%s:%s" % (c, skey, kind), "`%s` with invalid %s=%s via %s ends with exit %s instead of 2" % (c, skey, v, k, r["exit"]), rep(i), P.jobs[i][0])
+    for key, i in idx.items():
+        if key[0] != "invalid-cli":
+            continue
+        ctx.count("invalid_cases")
+        ctx.nontrivial(["invalid-cli", key[1], key[2], key[3]])
+        if R[i]["exit"] != 2:
+            ctx.discrepancy("invalid-cli-value-accepted:%s" % key[2], "`%s %s %s` ends with exit %s instead of 2 (%s violations reported)" % (
+                key[1], key[2], key[3], R[i]["exit"], None if R[i]["v"] is None else len(R[i]["v"])), rep(i), P.jobs[i][0])
     for key, i in idx.items():
         if key[0] != "broken":
             continue
